@@ -90,8 +90,16 @@ func nthCall(fn *ssa.Function, spec string) (ssa.CallInstruction, error) {
 
 func sortedFacts(facts []Atom) string {
 	var s []string
+	seen := map[string]bool{}
 	for _, a := range facts {
-		s = append(s, short(a.String()))
+		t := short(a.String())
+		// the test of a spliced helper's merged result restates what the threaded guards
+		// of the feasible exits already say
+		if strings.Contains(t, "Phi[_r") || seen[t] {
+			continue
+		}
+		seen[t] = true
+		s = append(s, t)
 	}
 	sort.Strings(s)
 	return strings.Join(s, " ; ")
